@@ -162,7 +162,7 @@ func (in *inliner) host(info *types.Info, pkg *types.Package, host *ast.FuncDecl
 				}
 			case *ast.ExprStmt:
 				if call, ok := unparen(x.X).(*ast.CallExpr); ok {
-					if fd, o := callee(call); fd != nil && fd.Type.Results == nil {
+					if fd, o := callee(call); fd != nil && (fd.Type.Results == nil || in.pureReturns(info, fd)) {
 						if blk := in.expandStmt(info, call, fd, "S"); blk != nil {
 							usedHere[o] = true
 							in.p.inlRanges = append(in.p.inlRanges, inlRange{fd.Body.Pos(), fd.Body.End(), host.Pos(), host.End()})
@@ -943,4 +943,22 @@ func guardOnlyVals(list []ast.Stmt, n int, named bool) bool {
 		return true
 	}
 	return ok(list)
+}
+
+// pureReturns: the function has results, but every return only hands back side-effect-free expressions (a local, a
+// parameter, a constant) — so a call whose results are discarded can be inlined as a statement by dropping them.
+func (in *inliner) pureReturns(info *types.Info, fd *ast.FuncDecl) bool {
+	if len(namedResults(fd, info)) > 0 {
+		return false
+	}
+	rets := returnsIn(fd.Body)
+	if len(rets) != 1 || len(fd.Body.List) == 0 || fd.Body.List[len(fd.Body.List)-1] != ast.Stmt(rets[0]) {
+		return false
+	}
+	for _, r := range rets[0].Results {
+		if !in.pure(info, r) {
+			return false
+		}
+	}
+	return true
 }
